@@ -21,12 +21,13 @@ META = {'design_ref': 'DESIGN.md section 7 / C13',
  'level_note': 'Proved for the models over ALL write-result sequences / event orders / interleavings; the WebSocket adapter model is tied read-by-read to the real '
                'adapter on random inputs; the byte path and result delivery of the real tokio / threaded loops are SAMPLED on scripted transports (scheduling, '
                'select!, thread interleavings, OS write semantics are not controllable). C13_bytes_in is definitional in the loop model (the fragment is passed '
-               'through); its substance is the adapter theorem and the sampled runs. Known findings: D15, D15b (WebSocket adapter), D16 (threaded result slot).',
+               'through); its substance is the adapter theorem and the sampled runs. D15 (adapter read offsets) was found here and is fixed (73a05c7); known findings: D15b (WebSocket send repeated after would-block), D16 (threaded result slot).',
  'level_text': 'Coq theorems: for every engine and every list of driver events (any write results, both drivers) accepted bytes ++ unwritten tail = concatenation '
                'of the engine outputs, write completion only when exactly the produced outputs are accepted, finished connections got a prefix (C13_bytes_out); '
                'tokio result channel: in every interleaving each operation is accounted exactly once and has exactly one result once the loop exited '
                '(C13_result_exactly_once), threaded likewise while the loop runs, refuted after loop exit (C13_result_exactly_once_refuted, D16); WebSocket adapter: '
-               'refuted in general (C13_ws_reassembly_refuted, C13_ws_write_refuted: D15/D15b), proved for one message per read shorter than the buffer, any '
-               'buffer size (C13_ws_reassembly, C13_ws_read_bounded).',
+               'for every message list (any sizes relative to the buffer, several per read), buffer size and arrival pattern the reads return the payload '
+               'concatenation and never more than the buffer holds (C13_ws_reassembly, C13_ws_read_bounded); write side refuted (C13_ws_write_refuted, D15b) and '
+               'proved outside that class (C13_ws_write).',
  'technique': 'machine-checked proof in Coq (invariants by induction over event lists; counting argument for result delivery; vm_compute witnesses) + read-by-read '
               'correspondence of the extracted adapter model with the real adapter + sampled runs of the real drivers'}
